@@ -60,6 +60,28 @@ if not getattr(_core.SymReal, "_c14_inf", False):
     _core.Ctx.decide = _decide_memo
 
 
+# numpy's squeeze of a one-element array is a 0-d *array* (a mutable object that can be aliased and changed in place); the
+# facade hands back the bare element instead, which hides in-place updates of the cached factors (`f = nuc.areaFactor;
+# f /= x`).  The Nucleation module therefore gets a numpy stand-in that is the engine's facade except for squeeze, which
+# keeps numpy's 0-d array.  (Registered from here as the HOWTO prescribes for facade gaps; transparent in concrete mode.)
+import numpy as _rnp          # stays the real numpy (the facade is installed under the names np / numpy only)
+from vk import symnp as _symnp
+
+
+class _NpKeep0d:
+    def __getattr__(self, name):
+        return getattr(_symnp.FACADE, name)
+
+    def squeeze(self, a, axis=None):
+        if not _symnp.symbolic_mode():
+            return _rnp.squeeze(a, axis=axis)
+        return _rnp.squeeze(_symnp.plain(_symnp.to_obj(a)), axis=axis).view(_symnp.SymArray)
+
+
+if not isinstance(NUC.__dict__.get("np"), _NpKeep0d):
+    NUC.np = _NpKeep0d()
+
+
 SITES = ("bulk", "dislocations", "grain boundaries", "grain edges", "grain corners")
 IS_GB = {"bulk": False, "dislocations": False, "grain boundaries": True, "grain edges": True, "grain corners": True}
 # admissible energy ratio k = gbEnergy / (2 gamma): strictly inside the site's limit (the limits sqrt(3)/2, sqrt(2/3)
@@ -400,8 +422,21 @@ def rates(ctx, site="bulk", beta_kind=1, n=1):
     Rn = NR.nucleationRadius(T, R, p)
     for nm, v in (("R", R), ("G", G), ("Z", Z), ("beta", beta), ("tau", tau), ("rate", rate), ("rate_ss", rate_ss), ("Rnuc", Rn)):
         ctx.observe(nm, sc(v))
+    # evaluating the chain must not touch the cached factors: same impingement rate when asked again, factors still
+    # those of the description at the current energy ratio
+    R_, G_, Z_, beta2, tau_, rate_ = chain(ctx, p, matrix, therm, dG, T, x, beta_kind, t)
+    nbp = p.nucleation
+    kcur = nbp.gbEnergy / (2 * gamma)
+    cached = [sc(nbp.areaFactor), sc(nbp.volumeFactor), sc(nbp.gbRemoval)]
+    fresh_ = [sc(f(kcur, setInvalidToNan=False)) for f in (nbp.description.areaFactor, nbp.description.volumeFactor, nbp.description.gbRemoval)]
+    ctx.observe("cached", cached); ctx.observe("beta2", sc(beta2))
     ds = elems(dG, n)
     R, G, Z, beta, tau, rate, rate_ss, Rn = (elems(v, n) for v in (R, G, Z, beta, tau, rate, rate_ss, Rn))
+    beta2 = elems(beta2, n)
+    ctx.prove("cached factors are still those of the current energies after the rates were evaluated",
+              ctx.all([ctx.eq(a_, b_) for a_, b_ in zip(cached, fresh_)]))
+    for i in range(n):
+        ctx.prove("impingement rate is the same when evaluated again", ctx.eq(beta[i], beta2[i]))
     for i in range(n):
         off = ds[i] <= 0
         ctx.prove("dG <= 0: Z, beta, tau, rate all zero",
@@ -713,6 +748,81 @@ def sites_compete(ctx, site="grain boundaries", nph=2, p=0, q=1, nb=2):
     ctx.prove("available sites do not increase when occupying precipitates are added", ctx.le(s2, s1))
 
 
+def at_limit(ctx, site="grain boundaries", sym=True):
+    """energy ratio exactly AT the site-type limit (gbEnergy = 2 * maxRatio * gamma): the parameter object either
+    rejects it (ValueError, as for ratios above the limit) or hands out non-negative factors and a non-negative
+    barrier -- never the internal 'invalid' marker.  sym: gamma symbolic (grain-boundary site, limit 1); otherwise
+    gamma is a power of two so that the ratio is the limit's double exactly (edge / corner limits are doubles)"""
+    p = new_prec(ctx)
+    p.nucleation.setNucleationType(site)
+    lim = float(p.nucleation.description.maxRatio)
+    gamma = pos(ctx, "gamma", (0.1, 0.5)) if sym else 0.25
+    dG = pos(ctx, "dG", (0.5, 3.0))
+    p.Rmin = pos(ctx, "Rmin", (0.01, 0.3))
+    p.nucleation.gbEnergy = 2 * lim * gamma
+    p.gamma = gamma
+    name = "energy ratio at the site-type limit: rejected (ValueError) or factors and barrier >= 0"
+    try:
+        nb = p.nucleation
+        vals = [sc(nb.areaFactor), sc(nb.volumeFactor), sc(nb.gbRemoval), sc(nb.areaRemoval)]
+        R, G = NR.nucleationBarrier(dG, p)
+        vals += [sc(R), sc(G)]
+    except ValueError:
+        ctx.observe("rejected", True)
+        ctx.prove(name, True)
+        return
+    ctx.observe("rejected", False)
+    ctx.prove(name, ctx.all([ctx.le(0.0, v) for v in vals]))
+
+
+def gb_after_setup(ctx, site="grain boundaries", read="factors"):
+    """real PrecipitateModel (two phases) that has been set up (PrecipitateBase.setup: grain-boundary energy handed to the
+    precipitates, _isSetup set) and whose nucleation factors have been read; then model.setGrainBoundaryEnergy(new) and
+    the setup() call every solve() starts with (returns early): every precipitate's nucleation.gbEnergy is the new
+    value, the energy ratio is new/(2 gamma) and (read=factors, grain-boundary site) the cached factors and Rcrit follow"""
+    g = pos(ctx, "gamma", (0.2, 0.5))
+    e1 = ctx.real("gbE1", (0.0, 0.3)); e2 = ctx.real("gbE2", (0.0, 0.3))
+    dG = pos(ctx, "dG", (0.5, 3.0))
+    for e in (e1, e2):
+        ctx.assume(e >= 0); ctx.assume(e <= 2 * KMAX[site] * g); ctx.assume(e <= 2 * KMAX["grain boundaries"] * 0.3)
+    m = numeric_pi(ctx, lambda: PrecipitateModel(phases=["P0", "P1"], elements=["A"]))
+    m.setVolumeAlpha(1e-5, "VM", 4)
+    m.setInitialComposition(0.05)
+    m.setTemperature(800.0)
+    m.setInterfacialEnergy(0.3, phase="P0")
+    m.setNucleationSite("grain boundaries", phase="P0")
+    m.setInterfacialEnergy(g, phase="P1")
+    m.setNucleationSite(site, phase="P1")
+    m.setGrainBoundaryEnergy(e1)
+    PrecipitateBase.setup(m)                 # the thermodynamics-free part of setup(); sets _isSetup
+    nbs = [pp.nucleation for pp in m.precipitateParameters]
+    nb = nbs[1]
+    ctx.prove("set-up model: precipitates hold the model's grain-boundary energy", ctx.all([ctx.eq(x.gbEnergy, e1) for x in nbs]))
+    first = [sc(nb.GBk), sc(nbs[0].GBk)]
+    if read == "factors":
+        first += [sc(nb.areaFactor), sc(nb.volumeFactor), sc(nb.gbRemoval)]
+        NR.nucleationBarrier(dG, m.precipitateParameters[1])
+    ctx.observe("first", first)
+    m.setGrainBoundaryEnergy(e2)
+    m.setup()                                # what the next solve() does first: returns early, the model is set up
+    ctx.prove("setGrainBoundaryEnergy after setup: model is still set up (no re-initialisation)", m._isSetup is True)
+    ctx.prove("setGrainBoundaryEnergy after setup: nucleation.gbEnergy of every precipitate is the new value",
+              ctx.all([ctx.eq(x.gbEnergy, e2) for x in nbs] + [ctx.eq(m.matrixParameters.GBenergy, e2)]))
+    ctx.observe("GBk", sc(nb.GBk))
+    ctx.prove("setGrainBoundaryEnergy after setup: energy ratio is new gbEnergy/(2 gamma)",
+              ctx.all([ctx.eq(sc(nb.GBk), e2 / (2 * g)), ctx.eq(sc(nbs[0].GBk), e2 / (2 * 0.3))]))
+    if read == "factors":
+        d = nb.description
+        kref = e2 / (2 * g)
+        got = [sc(nb.areaFactor), sc(nb.volumeFactor), sc(nb.gbRemoval)]
+        want = [sc(f(kref, setInvalidToNan=False)) for f in (d.areaFactor, d.volumeFactor, d.gbRemoval)]
+        ctx.observe("got", got)
+        ctx.prove("setGrainBoundaryEnergy after setup: cached factors are those of the new energy ratio", ctx.all([ctx.eq(x, y) for x, y in zip(got, want)]))
+        R, G = NR.nucleationBarrier(dG, m.precipitateParameters[1])
+        Rmin = m.precipitateParameters[1].Rmin
+        ctx.prove("setGrainBoundaryEnergy after setup: Rcrit is the spherical 2 gamma / dG", ctx.implies(2 * g >= Rmin * dG, ctx.eq(sc(R) * dG, 2 * g)))
+
+
 # =========================================================================== 6. model level
 class ThermDG(Therm):
     """adds the driving-force query: chemical driving force an uninterpreted function of (x, T, phase), any sign"""
@@ -914,6 +1024,18 @@ HARNESSES = [
                               {"site": "grain edges", "route": "prec", "read": "ratio"}, {"site": "grain corners", "route": "model", "read": "ratio"}],
                     "thorough": [{"site": s, "route": r, "read": "ratio"} for s in SITES for r in ("prec", "model")] +
                                 [{"site": "grain boundaries", "route": r, "read": "factors"} for r in ("prec", "model")]}),
+    Harness("C14.at_limit", at_limit, functions=[NucleationBarrierParameters._validateGBk, NucleationBarrierParameters.areaFactor.fget, NucleationBarrierParameters.volumeFactor.fget,
+                                                  NucleationBarrierParameters.gbRemoval.fget, NR.nucleationBarrier, NUC.NucleationDescriptionBase._createArrays],
+            assumptions=["gbEnergy = 2 * maxRatio * gamma exactly; edge / corner sites: gamma = 0.25 (a power of two keeps the ratio the limit's double)"],
+            params={"quick": [{"site": "grain boundaries", "sym": True}, {"site": "grain edges", "sym": False}, {"site": "grain corners", "sym": False}],
+                    "thorough": [{"site": "grain boundaries", "sym": True}, {"site": "grain boundaries", "sym": False}, {"site": "grain edges", "sym": False}, {"site": "grain corners", "sym": False}]}),
+    Harness("C14.gb_after_setup", gb_after_setup, functions=[PrecipitateBase.setGrainBoundaryEnergy, PrecipitateBase.setup, PrecipitateModel.setup, NucleationBarrierParameters.gbEnergy.fset,
+                                                              NucleationBarrierParameters.GBk.fget, NR.nucleationBarrier],
+            opts={"symbolic_pi": True},
+            stubs=["the thermodynamic part of KWNEuler.setup (lookup table, first nucleation / growth evaluation) is not run: the base-class PrecipitateBase.setup is called on the real PrecipitateModel, the later model.setup() call is the real one (early return)"],
+            assumptions=["both grain-boundary energies admissible for both phases' site types"],
+            params={"quick": [{"site": "grain boundaries", "read": "factors"}, {"site": "grain edges", "read": "ratio"}],
+                    "thorough": [{"site": "grain boundaries", "read": "factors"}] + [{"site": s, "read": "ratio"} for s in SITES]}),
     Harness("C14.sites_compete", sites_compete, functions=[PrecipitateModel._calcNucleationSites, PrecipitateBase.setNucleationSite, NucleationBarrierParameters.setNucleationType],
             assumptions=["populations >= 0 on a grid with positive radii, at least one class of phase q gains precipitates; grain size, aspect ratio, dislocation density > 0, bulkN0 >= 0"],
             bounds={"phases": "nph (2 or 3), all on the same site type, each with its own description instance", "classes": "nb"},
